@@ -646,6 +646,23 @@ def run_big(key):
             _V(res, "layout_irrelevant", dict(k, form="fortran_order_differs"), {})
     except Exception as e:
         _V(res, "layout_irrelevant", dict(k, exc=type(e).__name__), {"exception": repr(e)[:200]})
+    # the caller refills its (N, M) buffers IN PLACE for the next texture and calls again with
+    # the same array objects: the draw follows the new contents (seed C15h: a memo keyed on the
+    # identity of the fractions array)
+    _cl(res, "inplace_refill")
+    try:
+        O2, F2 = np.array(O, float), np.array(F, float)
+        _FN(O2, F2, ns, 0)
+        F2[:] = np.roll(F2, 1, axis=1)
+        F2[:, 0] = 0.0
+        F2 /= F2.sum(axis=1, keepdims=True)
+        O2[:] = O2[:, ::-1]
+        got = _FN(O2, F2, ns, 0)
+        want = _FN(O2.copy(), F2.copy(), ns, 0)
+        if not all(x.tobytes() == y.tobytes() for x, y in zip(got, want)):
+            _V(res, "inplace_refill", dict(k, form="second_call_on_refilled_buffers_differs_from_fresh_copies"), {"n_zero_volume_drawn": int((np.asarray(got[1]) == 0).sum())})
+    except Exception as e:
+        _V(res, "inplace_refill", dict(k, exc=type(e).__name__), {"exception": repr(e)[:200]})
     _cl(res, "repro")
     nondet = not all(x.tobytes() == y.tobytes() for x, y in zip(a, b))
     if nondet:
